@@ -27,6 +27,8 @@
 #include <cstdlib>
 #include <filesystem>
 #include <iostream>
+#include <memory>
+#include <omp.h>
 #include <sstream>
 
 using namespace Opm;
@@ -230,17 +232,19 @@ void emitCorners(vh::Sink& sink, vh::Rng& r, const EclipseGrid& g) {
     sink.count("corners");
 }
 
+std::vector<NNCdata> genNnc(vh::Rng& r, size_t ncells, bool thorough);
+std::string nncStr(const std::vector<NNCdata>& nnc);
+long nncRepeats(const std::vector<NNCdata>& nnc);
+long nncAdjacentRepeats(const std::vector<NNCdata>& nnc);
+
 // EGRID save -> file image, and load back
 void emitEgrid(vh::Sink& sink, vh::Rng& r, const EclipseGrid& g, const V& coordIn, const V& zcornIn,
                const std::string& tmp, long& fileNo, const std::string& mapaxesHex, const std::string& mapunitsHex) {
     const auto d = g.getNXYZ();
     const int unit = r.range(0, 2);
     UnitSystem us = unitSys(unit);
-    std::vector<NNCdata> nnc;
-    const int nn = r.coin() ? 0 : r.range(1, 4);
-    for (int n = 0; n < nn; ++n) nnc.emplace_back(r.below(g.getCartesianSize()), r.below(g.getCartesianSize()), r.unit());
-    std::string nncs = "-";
-    for (size_t n = 0; n < nnc.size(); ++n) nncs = (n ? nncs + "," : std::string()) + std::to_string(nnc[n].cell1) + ":" + std::to_string(nnc[n].cell2);
+    const std::vector<NNCdata> nnc = genNnc(r, g.getCartesianSize(), false);
+    const std::string nncs = nncStr(nnc);
     const std::string path = tmp + "/G" + std::to_string(fileNo++) + ".EGRID";
     g.save(path, false, nnc, us);
     const std::string bytes = vh::slurp(path);
@@ -249,6 +253,7 @@ void emitEgrid(vh::Sink& sink, vh::Rng& r, const EclipseGrid& g, const V& coordI
     sink.emit("grid.egrid " + dims3(d[0], d[1], d[2]) + " " + gridUnitName(unit) + " " + vh::hexF64(ffrom) + " " + hexV(coordIn) + " " + hexV(zcornIn) + " "
               + joinI(g.getACTNUM()) + " " + mapaxesHex + " " + mapunitsHex + " " + nncs, vh::hex(bytes));
     sink.count(std::string("egrid.") + gridUnitName(unit)); sink.count("egrid.nnc", (long) nnc.size());
+    sink.count("egrid.nnc.repeated_pairs", nncRepeats(nnc)); sink.count("egrid.nnc.adjacent_repeats", nncAdjacentRepeats(nnc));
     // load
     std::string ans;
     try {
@@ -329,6 +334,494 @@ std::vector<EclipseGrid> omGrids(uint64_t seed, const std::string& tier) {
     return gs;
 }
 
+
+// ---- NNC lists ----------------------------------------------------------------------------
+// none / a few random pairs / many / repeated pairs (scattered, possibly with the two cells
+// swapped) / the same through the real NNC container (NNC::addNNC orders the list on
+// (cell1, cell2) with cell1 <= cell2, so repeated pairs become neighbours) / runs of identical
+// neighbours in unsorted raw input.
+std::vector<NNCdata> genNnc(vh::Rng& r, size_t ncells, bool thorough) {
+    std::vector<NNCdata> out;
+    const int mode = r.range(0, 5);
+    if (mode == 0) return out;
+    const int n = mode == 1 ? r.range(1, 4) : r.range(3, thorough ? 60 : 24);
+    std::vector<std::pair<size_t, size_t>> pool;
+    for (int t = 0; t < n; ++t) {
+        size_t c1 = r.below(ncells), c2 = r.below(ncells);
+        if (mode >= 3 && !pool.empty() && r.coin()) {            // repeat an earlier pair
+            const auto p = pool[r.below(pool.size())];
+            c1 = p.first; c2 = p.second;
+            if (r.coin(1, 3)) std::swap(c1, c2);
+        }
+        pool.emplace_back(c1, c2);
+        out.emplace_back(c1, c2, r.unit());
+    }
+    if (mode == 4 || (mode == 5 && r.coin())) {
+        NNC c;
+        for (const auto& d : out) c.addNNC(d.cell1, d.cell2, d.trans);
+        out = c.input();
+    }
+    if (mode == 5) {
+        std::vector<NNCdata> o2;
+        for (const auto& d : out) { int k = r.coin(1, 3) ? r.range(2, 3) : 1; while (k-- > 0) o2.push_back(d); }
+        out = o2;
+    }
+    return out;
+}
+std::string nncStr(const std::vector<NNCdata>& nnc) {
+    if (nnc.empty()) return "-";
+    std::string s;
+    for (size_t n = 0; n < nnc.size(); ++n) s += (n ? "," : "") + std::to_string(nnc[n].cell1) + ":" + std::to_string(nnc[n].cell2);
+    return s;
+}
+long nncRepeats(const std::vector<NNCdata>& nnc) {
+    std::map<std::pair<size_t, size_t>, int> seen; long rep = 0;
+    for (const auto& d : nnc) if (seen[{ std::min(d.cell1, d.cell2), std::max(d.cell1, d.cell2) }]++ > 0) ++rep;
+    return rep;
+}
+long nncAdjacentRepeats(const std::vector<NNCdata>& nnc) {
+    long rep = 0;
+    for (size_t n = 1; n < nnc.size(); ++n) if (nnc[n].cell1 == nnc[n - 1].cell1 && nnc[n].cell2 == nnc[n - 1].cell2) ++rep;
+    return rep;
+}
+
+// ---- operation sequences on ONE EclipseGrid object ----------------------------------------
+// V activeVolume()           Q all per-cell queries + index maps      q getCellVolume(g)
+// A resetACTNUM()            R resetACTNUM(mask)                      Z EclipseGrid(src, zcorn, mask)
+// C EclipseGrid(src, mask)   S save (object kept)                     L save, then continue with EclipseGrid(file)
+struct SeqOp { char kind = 'Q'; std::vector<int> mask; V z; int unit = 0; size_t g = 0; bool formatted = false; };
+
+std::vector<int> nextMask0(vh::Rng& r, const std::vector<int>& cur);
+std::vector<int> nextMask(vh::Rng& r, const std::vector<int>& cur) {
+    // the same-popcount transformations are the identity on all-active / all-inactive masks (and
+    // sometimes by chance): start those from a half-active mask instead
+    std::vector<int> m = nextMask0(r, cur);
+    if (m == cur && cur.size() > 1 && r.coin(3, 4)) {
+        std::vector<int> half(cur.size());
+        for (auto& v : half) v = r.coin() ? 1 : 0;
+        m = nextMask0(r, half);
+    }
+    return m;
+}
+std::vector<int> nextMask0(vh::Rng& r, const std::vector<int>& cur) {
+    const size_t n = cur.size();
+    std::vector<int> m = cur;
+    switch (r.range(0, 9)) {
+    case 0: return genActnum(r, (int) n);
+    case 1: for (size_t i = n; i > 1; --i) std::swap(m[i - 1], m[r.below(i)]); return m;        // same popcount, shuffled
+    case 2: {                                                                                    // same popcount, one cell exchanged
+        std::vector<size_t> a, b;
+        for (size_t i = 0; i < n; ++i) (m[i] > 0 ? a : b).push_back(i);
+        if (!a.empty() && !b.empty()) std::swap(m[a[r.below(a.size())]], m[b[r.below(b.size())]]);
+        return m; }
+    case 3: for (auto& v : m) if (v <= 0 && r.coin(1, 3)) v = 1; return m;                       // growing
+    case 4: for (auto& v : m) if (v > 0 && r.coin(1, 3)) v = 0; return m;                        // shrinking
+    case 5: for (auto& v : m) v = v > 0 ? 0 : 1; return m;                                       // complement
+    case 6: return m;                                                                            // identical
+    case 7: if (n > 1) std::rotate(m.begin(), m.begin() + 1 + r.below(n - 1), m.end()); return m; // same popcount, rotated
+    case 8: std::reverse(m.begin(), m.end()); return m;                                          // same popcount, mirrored
+    default: m.assign(n, 0); if (r.coin()) m[r.below(n)] = 1; return m;                          // none / one active cell
+    }
+}
+
+V nextZcorn(vh::Rng& r, const V& zc) {
+    V z = zc;
+    const double z0 = *std::min_element(zc.begin(), zc.end());
+    switch (r.range(0, 4)) {
+    case 0: { const double f = 1.25 + 1.5 * r.unit(); for (auto& v : z) v = z0 + f * (v - z0); break; }   // thicker
+    case 1: { const double f = 0.2 + 0.6 * r.unit(); for (auto& v : z) v = z0 + f * (v - z0); break; }    // thinner
+    case 2: { const double s = 20 + 200 * r.unit(); for (auto& v : z) v += s; break; }                      // shifted
+    case 3: for (auto& v : z) if (r.coin(1, 5)) v += (r.unit() - 0.5) * 30; break;                          // perturbed: fix-up has work
+    default: break;                                                                                          // identical
+    }
+    return z;
+}
+
+// a mask with the same number of active cells as `cur` but (when possible) other cells
+std::vector<int> samePopMask(vh::Rng& r, const std::vector<int>& cur) {
+    std::vector<int> m = cur;
+    for (int attempt = 0; attempt < 4 && m == cur; ++attempt)
+        for (size_t i = m.size(); i > 1; --i) std::swap(m[i - 1], m[r.below(i)]);
+    return m;
+}
+
+SeqOp genOp(vh::Rng& r, const std::vector<int>& curMask, const V& curZcorn, bool corr, bool cached) {
+    SeqOp op;
+    const size_t n = curMask.size();
+    if (cached && r.coin(2, 5)) {
+        // the cache is filled: the operations whose effect on it matters most
+        switch (r.range(0, 3)) {
+        case 0: op.kind = 'R'; op.mask = samePopMask(r, curMask); break;
+        case 1: op.kind = 'C'; op.mask = samePopMask(r, curMask); break;
+        case 2: op.kind = 'Z'; op.z = nextZcorn(r, curZcorn); op.mask = curMask; break;
+        default: op.kind = 'Z'; op.z = nextZcorn(r, curZcorn); op.mask = samePopMask(r, curMask); break;
+        }
+        return op;
+    }
+    const int w = r.range(0, 99);
+    if (w < 20) op.kind = 'V';
+    else if (w < 28) op.kind = 'Q';
+    else if (w < 36) { op.kind = 'q'; op.g = r.coin(1, 8) ? n + r.below(3) : r.below(n); }
+    else if (w < 62) { op.kind = 'R'; op.mask = nextMask(r, curMask); if (r.coin(1, 20)) op.mask.push_back(1); }
+    else if (w < 67) op.kind = 'A';
+    else if (w < 80) { op.kind = 'Z'; op.z = nextZcorn(r, curZcorn); op.mask = r.coin() ? curMask : nextMask(r, curMask); if (r.coin(1, 25)) op.mask.pop_back(); }
+    else if (w < 88) { op.kind = 'C'; op.mask = nextMask(r, curMask); }
+    else if (w < 94) { op.kind = 'S'; op.unit = r.range(0, 2); op.formatted = !corr && r.coin(); }
+    else { op.kind = 'L'; op.unit = r.range(0, 2); op.formatted = !corr && r.coin(); }
+    return op;
+}
+
+std::string volsHex(const EclipseGrid& g) {
+    std::string s;
+    for (size_t gi = 0; gi < g.getCartesianSize(); ++gi) s += vh::hexF64(g.getCellVolume(gi));
+    return s;
+}
+std::string mapsStr(const EclipseGrid& g) {
+    const size_t n = g.getCartesianSize();
+    std::vector<int> g2a(n);
+    for (size_t gi = 0; gi < n; ++gi) { try { g2a[gi] = (int) g.activeIndex(gi); } catch (const std::exception&) { g2a[gi] = -1; } }
+    std::vector<int> a2g;
+    for (size_t a = 0; a < g.getNumActive(); ++a) a2g.push_back((int) g.getGlobalIndex(a));
+    return std::to_string(g.getNumActive()) + "|" + joinI(g2a) + "|" + (a2g.empty() ? std::string() : joinI(a2g));
+}
+std::string seqDigest(const EclipseGrid& g) {
+    return std::to_string(g.getNumActive()) + "," + volsHex(g) + "," + std::to_string(const_cast<EclipseGrid&>(g).getZcornFixed());   // getter is not const-qualified
+}
+
+// Applies one operation to the object; `old` receives the source object of a copying
+// operation.  Returns the operation's own answer (protocol text).
+std::string applyOp(std::unique_ptr<EclipseGrid>& g, const SeqOp& op, const std::string& tmp, long& fileNo,
+                    std::unique_ptr<EclipseGrid>* old = nullptr, std::string* savedPath = nullptr) {
+    switch (op.kind) {
+    case 'V': return hexV(g->activeVolume());
+    case 'Q': return mapsStr(*g) + "|" + cellsHex(*g);
+    case 'q': try { return vh::hexF64(g->getCellVolume(op.g)); } catch (const std::exception&) { return "err"; }
+    case 'A': g->resetACTNUM(); return "ok";
+    case 'R': try { g->resetACTNUM(op.mask); return "ok"; } catch (const std::exception&) { return "err"; }
+    case 'Z': case 'C': {
+        std::unique_ptr<EclipseGrid> c;
+        try {
+            if (op.kind == 'Z') c = std::make_unique<EclipseGrid>(*g, op.z.data(), op.mask);
+            else c = std::make_unique<EclipseGrid>(*g, op.mask);
+        } catch (const std::exception&) { return "err"; }
+        if (old) *old = std::move(g);
+        g = std::move(c);
+        return op.kind == 'Z' ? std::to_string(g->getZcornFixed()) : std::string("ok");
+    }
+    case 'S': case 'L': {
+        const std::string path = tmp + "/S" + std::to_string(fileNo++) + (op.formatted ? ".FEGRID" : ".EGRID");
+        g->save(path, op.formatted, {}, unitSys(op.unit));
+        if (savedPath) *savedPath = path;
+        if (op.kind == 'S') return vh::hex(vh::slurp(path));
+        auto c = std::make_unique<EclipseGrid>(path);
+        if (old) *old = std::move(g);
+        g = std::move(c);
+        return std::to_string(g->getZcornFixed());
+    }
+    }
+    return "?";
+}
+
+std::string opText(const SeqOp& op) {
+    switch (op.kind) {
+    case 'q': return "q:" + std::to_string(op.g);
+    case 'R': return "R:" + joinI(op.mask);
+    case 'Z': return "Z:" + hexV(op.z) + ":" + joinI(op.mask);
+    case 'C': return "C:" + joinI(op.mask);
+    case 'S': case 'L': {
+        const UnitSystem us = unitSys(op.unit);
+        return std::string(1, op.kind) + ":" + gridUnitName(op.unit) + ":" + vh::hexF64(us.from_si(UnitSystem::measure::length, 1.0)) + ":"
+             + vh::hexF64(us.to_si(UnitSystem::measure::length, 1.0));
+    }
+    default: return std::string(1, op.kind);
+    }
+}
+
+// The initial object of a sequence: corner-point vectors (input arrays remembered by the
+// object; fix-up may have work), the regular constructor, or a DXV/DYV/DZV/TOPS deck.
+struct SeqInit { std::unique_ptr<EclipseGrid> g; std::string kind; V coord, zcornRaw; std::vector<int> act; bool actNull = false; };
+SeqInit genSeqInit(vh::Rng& r, int maxn) {
+    SeqInit si;
+    const int k = r.range(0, 5);
+    if (k <= 3) {
+        CP cp = genPlanarCP(r, maxn, r.coin(), r.coin(), r.coin(1, 4));
+        if (k == 3) for (auto& z : cp.zcorn) if (r.coin(1, 6)) z += (r.unit() - 0.5) * 40;
+        si.kind = "cp"; si.coord = cp.coord; si.zcornRaw = cp.zcorn;
+        si.actNull = r.coin(1, 3);
+        si.act = si.actNull ? std::vector<int>(cp.nx * cp.ny * cp.nz, 1) : genActnum(r, cp.nx * cp.ny * cp.nz);
+        si.g = std::make_unique<EclipseGrid>(std::array<int, 3>{ cp.nx, cp.ny, cp.nz }, cp.coord, cp.zcorn, si.actNull ? nullptr : si.act.data());
+    } else if (k == 4) {
+        const int nx = r.range(1, maxn), ny = r.range(1, maxn), nz = r.range(1, maxn);
+        si.g = std::make_unique<EclipseGrid>(nx, ny, nz, rlen(r, 1, 100), rlen(r, 1, 100), rlen(r, 0.5, 20), r.coin() ? 0.0 : rlen(r, 100, 2000));
+        si.kind = "plain";
+    } else {
+        Block b = genBlock(r, maxn, r.coin(), false);
+        std::vector<int> act = genActnum(r, b.nx * b.ny * b.nz);
+        si.g = std::make_unique<EclipseGrid>(parse(deckDTops(b, true, r.coin() ? kwInt("ACTNUM", act) : std::string())));
+        si.kind = "plain";
+    }
+    if (si.kind == "plain") { si.coord = si.g->getCOORD(); si.zcornRaw = si.g->getZCORN(); si.act = si.g->getACTNUM(); }
+    return si;
+}
+
+// What a mask/geometry changing operation did while the volume cache was filled.
+std::string cachedCase(const std::vector<int>& before, const std::vector<int>& after, bool zcornChanged) {
+    const long pb = std::count_if(before.begin(), before.end(), [](int v) { return v > 0; });
+    const long pa = std::count_if(after.begin(), after.end(), [](int v) { return v > 0; });
+    std::vector<int> b01(before.size()), a01(after.size());
+    for (size_t i = 0; i < before.size(); ++i) { b01[i] = before[i] > 0; a01[i] = after[i] > 0; }
+    if (pa > pb) return "seq.cached.grow";
+    if (pa < pb) return "seq.cached.shrink";
+    if (b01 != a01) return "seq.cached.same_popcount_other_cells";
+    return zcornChanged ? "seq.cached.same_cells_new_zcorn" : "seq.cached.same_cells";
+}
+
+void emitSeq(vh::Sink& sink, vh::Rng& r, int maxn, const std::string& tmp, long& fileNo) {
+    SeqInit si = genSeqInit(r, maxn);
+    auto& g = si.g;
+    const auto d = g->getNXYZ();
+    std::string ops, ans;
+    const int len = r.range(5, 14);
+    bool pendingCache = false;
+    for (int t = 0; t < len; ++t) {
+        const SeqOp op = genOp(r, g->getACTNUM(), g->getZCORN(), true, pendingCache);
+        const std::vector<int> before = g->getACTNUM();
+        const std::string zBefore = hexV(g->getZCORN());
+        const std::string a = applyOp(g, op, tmp, fileNo);
+        ops += (t ? ";" : "") + opText(op);
+        ans += (t ? ";" : "") + a + "/" + seqDigest(*g);
+        sink.count(std::string("seq.op.") + op.kind);
+        if (a == "err") sink.count("seq.err");
+        if (op.kind == 'V') pendingCache = true;
+        else if (op.kind == 'R' || op.kind == 'Z' || op.kind == 'C' || op.kind == 'A') {
+            if (pendingCache && a != "err") sink.count(cachedCase(before, g->getACTNUM(), zBefore != hexV(g->getZCORN())));
+            if (a != "err") pendingCache = false;
+        } else if (op.kind == 'L') pendingCache = false;
+    }
+    sink.emit("grid.seq " + dims3(d[0], d[1], d[2]) + " " + si.kind + " " + hexV(si.coord) + " " + hexV(si.zcornRaw) + " " + (si.actNull ? std::string("-") : joinI(si.act)) + " " + ops, ans);
+    sink.count("seq"); sink.count("seq.steps", len);
+}
+
+
+// ---- property mode: stateful sequences ----------------------------------------------------
+// corner extraction written here, independent of EclipseGrid::getCellCorners
+void ownCorners(const std::array<int, 3>& d, const V& coord, const V& zcorn, int i, int j, int k, A8& X, A8& Y, A8& Z) {
+    const int nx = d[0], ny = d[1];
+    for (int c = 0; c < 8; ++c) {
+        const int pi = i + (c & 1), pj = j + ((c >> 1) & 1);
+        const double* p = &coord[6 * (size_t(pi) + size_t(pj) * (nx + 1))];
+        const double z = zcorn[zind(nx, ny, i, j, k, c)];
+        Z[c] = z;
+        if (p[2] == p[5]) { X[c] = p[0]; Y[c] = p[1]; }
+        else { const double t = (z - p[2]) / (p[5] - p[2]); X[c] = p[0] + t * (p[3] - p[0]); Y[c] = p[1] + t * (p[4] - p[1]); }
+    }
+}
+
+struct Expect { std::array<int, 3> d; V coord, zcorn; std::vector<int> act; };
+
+// Every observable of the object against an independent recomputation from its own current
+// COORD / ZCORN / ACTNUM and against the harness's expectation of those three.
+bool checkObject(const EclipseGrid& g, const Expect& e, std::string& why) {
+    if (g.getNXYZ() != e.d) { why = "dims changed"; return false; }
+    if (g.getACTNUM() != e.act) { why = "ACTNUM is not the mask last set: " + joinI(g.getACTNUM()) + " expected " + joinI(e.act); return false; }
+    if (hexV(g.getCOORD()) != hexV(e.coord)) { why = "COORD changed"; return false; }
+    if (hexV(g.getZCORN()) != hexV(e.zcorn)) { why = "ZCORN is not the (fixed-up) array last set"; return false; }
+    const size_t n = g.getCartesianSize();
+    // index maps from ACTNUM
+    std::vector<int> a2g;
+    for (size_t gi = 0; gi < n; ++gi) {
+        const bool active = e.act[gi] > 0;
+        if (g.cellActive(gi) != active) { why = "cellActive != ACTNUM>0 g=" + std::to_string(gi); return false; }
+        if (active) {
+            size_t a = 0;
+            try { a = g.activeIndex(gi); } catch (const std::exception&) { why = "activeIndex threw on active cell g=" + std::to_string(gi); return false; }
+            if (a != a2g.size()) { why = "activeIndex(g) is not the rank of g among the active cells g=" + std::to_string(gi); return false; }
+            a2g.push_back((int) gi);
+        } else {
+            bool threw = false;
+            try { (void) g.activeIndex(gi); } catch (const std::exception&) { threw = true; }
+            if (!threw) { why = "activeIndex accepted inactive cell g=" + std::to_string(gi); return false; }
+        }
+    }
+    if (g.getNumActive() != a2g.size()) { why = "getNumActive != #ACTNUM>0"; return false; }
+    if (g.getActiveMap() != a2g) { why = "getActiveMap != active cells of ACTNUM"; return false; }
+    for (size_t a = 0; a < a2g.size(); ++a) if ((int) g.getGlobalIndex(a) != a2g[a]) { why = "getGlobalIndex(active) a=" + std::to_string(a); return false; }
+    // per-cell volumes: getCellVolume (cache-aware) vs calculateCellVol on the cell's corners
+    V vol(n);
+    for (size_t gi = 0; gi < n; ++gi) {
+        A8 X, Y, Z; corners(g, gi, X, Y, Z);
+        vol[gi] = calculateCellVol(X, Y, Z);
+        const double v = g.getCellVolume(gi);
+        if (vh::hexF64(v) != vh::hexF64(vol[gi])) { why = "getCellVolume(" + std::to_string(gi) + ") = " + num(v) + " but calculateCellVol(corners) = " + num(vol[gi]); return false; }
+        const auto ijk = g.getIJK(gi);
+        A8 X2, Y2, Z2; ownCorners(e.d, g.getCOORD(), g.getZCORN(), ijk[0], ijk[1], ijk[2], X2, Y2, Z2);
+        const double w = calculateCellVol(X2, Y2, Z2);
+        if (!close(v, w, 1e-9, 1e-6)) { why = "getCellVolume(" + std::to_string(gi) + ") = " + num(v) + " but volume from COORD/ZCORN = " + num(w); return false; }
+        if (vh::hexF64(g.getCellVolume(ijk[0], ijk[1], ijk[2])) != vh::hexF64(v)) { why = "getCellVolume(i,j,k) != getCellVolume(g)"; return false; }
+    }
+    // a fresh object built from the same three arrays answers identically (history independence);
+    // its fix-up must leave the already fixed ZCORN alone
+    {
+        EclipseGrid fresh(e.d, g.getCOORD(), g.getZCORN(), g.getACTNUM().data());
+        if (hexV(fresh.getZCORN()) != hexV(g.getZCORN())) { why = "fixupZCORN is not idempotent on the object's ZCORN"; return false; }
+        if (mapsStr(fresh) != mapsStr(g)) { why = "index maps differ from those of a fresh object with the same ACTNUM"; return false; }
+        if (cellsHex(fresh) != cellsHex(g)) { why = "per-cell queries differ from those of a fresh object with the same COORD/ZCORN/ACTNUM"; return false; }
+    }
+    // activeVolume() on a copy (so that the object's own cache state is not disturbed)
+    {
+        EclipseGrid probe(g);
+        const auto& av = probe.activeVolume();
+        if (av.size() != a2g.size()) { why = "activeVolume().size() != nactive"; return false; }
+        for (size_t a = 0; a < av.size(); ++a)
+            if (vh::hexF64(av[a]) != vh::hexF64(vol[a2g[a]])) { why = "activeVolume()[" + std::to_string(a) + "] = " + num(av[a]) + " but cell " + std::to_string(a2g[a]) + " has volume " + num(vol[a2g[a]]); return false; }
+        for (size_t gi = 0; gi < n; ++gi)
+            if (vh::hexF64(probe.getCellVolume(gi)) != vh::hexF64(vol[gi])) { why = "after activeVolume(): getCellVolume(" + std::to_string(gi) + ") = " + num(probe.getCellVolume(gi)) + " expected " + num(vol[gi]); return false; }
+    }
+    return true;
+}
+
+// loaded grid h against the object g it was saved from
+bool checkReload(const EclipseGrid& g, const EclipseGrid& h, std::string& why, bool& geometry) {
+    geometry = false;
+    if (h.getNXYZ() != g.getNXYZ()) { why = "dims"; return false; }
+    if (h.getACTNUM() != g.getACTNUM()) { why = "ACTNUM"; return false; }
+    if (mapsStr(h) != mapsStr(g)) { why = "index maps"; return false; }
+    const auto& c1 = g.getCOORD(); const auto& c2 = h.getCOORD();
+    const auto& z1 = g.getZCORN(); const auto& z2 = h.getZCORN();
+    if (c1.size() != c2.size() || z1.size() != z2.size()) { why = "array sizes"; return false; }
+    for (size_t n = 0; n < c1.size(); ++n) if (!close(c1[n], c2[n], 2e-7, 1e-30)) { why = "COORD[" + std::to_string(n) + "] " + num(c1[n]) + " vs " + num(c2[n]); return false; }
+    geometry = true;
+    for (size_t n = 0; n < z1.size(); ++n) if (!close(z1[n], z2[n], 2e-7, 1e-30)) { why = "ZCORN[" + std::to_string(n) + "] in memory " + num(z1[n]) + ", after save+load " + num(z2[n]); return false; }
+    // depths are means of corner depths, each off by at most one float ulp of its own magnitude
+    // (they may cancel to ~0 when ZCORN straddles 0): absolute bound from the largest |ZCORN|
+    double zscale = 1.0;
+    for (double z : z1) zscale = std::max(zscale, std::fabs(z));
+    for (size_t gi = 0; gi < g.getCartesianSize(); ++gi) {
+        CellQ a = query(g, gi), c = query(h, gi);
+        // every corner coordinate moves by at most one float ulp (relative 6e-8, times the unit
+        // conversion): the volume moves by at most (face areas) x (coordinate error); written as an
+        // absolute bound so that zero-thickness cells (fix-up) are covered too
+        const double dz = std::fabs(a.dims[2]);
+        const double tol = 4e-6 * (std::fabs(a.ctr[0]) + std::fabs(a.ctr[1]) + std::fabs(a.ctr[2]) + a.dims[0] + a.dims[1] + dz + 1) * (a.dims[0] * a.dims[1] + a.dims[0] * dz + a.dims[1] * dz);
+        if (!close(a.vol, c.vol, 0.0, tol)) { why = "cell " + std::to_string(gi) + " volume in memory " + num(a.vol) + ", after save+load " + num(c.vol); return false; }
+        if (!close(a.depth, c.depth, 0.0, 4e-7 * zscale)) { why = "cell " + std::to_string(gi) + " depth in memory " + num(a.depth) + ", after save+load " + num(c.depth); return false; }
+    }
+    return true;
+}
+
+std::string opBrief(const SeqOp& op) {
+    switch (op.kind) {
+    case 'q': return "q:" + std::to_string(op.g);
+    case 'R': case 'C': return std::string(1, op.kind) + ":" + joinI(op.mask);
+    case 'Z': return "Z:<zcorn>:" + joinI(op.mask);
+    case 'S': case 'L': return std::string(1, op.kind) + ":" + gridUnitName(op.unit) + (op.formatted ? ":formatted" : ":unformatted");
+    default: return std::string(1, op.kind);
+    }
+}
+
+void propSeq(vh::PropLog& log, std::map<std::string, long>& st, vh::Rng& r, int maxn, const std::string& tmp, long& fileNo, bool& staleReported) {
+    SeqInit si = genSeqInit(r, maxn);
+    auto& g = si.g;
+    Expect e { g->getNXYZ(), g->getCOORD(), g->getZCORN(), si.act };
+    std::string hist = "init=" + si.kind + " dims=" + dims3(e.d[0], e.d[1], e.d[2]) + " actnum=" + (si.actNull ? std::string("null") : joinI(si.act)) + " ops=";
+    std::string why;
+    bool ok = true;
+    std::string key = "seq";
+    bool hasInput = si.kind == "cp";     // the object remembers the input arrays until its first save
+    bool staleRisk = false;              // ZCORN replaced by a copy constructor while the inputs were remembered
+    if (si.kind == "cp") {
+        // the object must hold the input COORD and the fixed-up input ZCORN
+        if (hexV(g->getCOORD()) != hexV(si.coord)) { ok = false; why = "COORD of a corner-point grid is not the input COORD"; }
+    }
+    if (ok && !checkObject(*g, e, why)) { ok = false; why = "initial object: " + why; }
+    const int len = r.range(5, 14);
+    bool cached = false;
+    for (int t = 0; t < len && ok; ++t) {
+        const SeqOp op = genOp(r, e.act, e.zcorn, false, cached);
+        hist += (t ? ";" : "") + opBrief(op);
+        st[std::string("seq.op.") + op.kind]++;
+        std::unique_ptr<EclipseGrid> old;
+        std::string before, saved;
+        if (op.kind == 'Z' || op.kind == 'C') before = cellsHex(*g) + mapsStr(*g) + hexV(g->getZCORN()) + joinI(g->getACTNUM());
+        const std::vector<int> actBefore = e.act;
+        const std::string zBefore = hexV(e.zcorn);
+        std::string a;
+        try { a = applyOp(g, op, tmp, fileNo, &old, &saved); }
+        catch (const std::exception&) { ok = false; why = "operation threw"; break; }
+        const size_t n = e.act.size();
+        switch (op.kind) {
+        case 'V': {
+            cached = true;
+            const auto& av = g->activeVolume();
+            size_t a2 = 0;
+            for (size_t gi = 0; gi < n && ok; ++gi) if (e.act[gi] > 0) {
+                A8 X, Y, Z; corners(*g, gi, X, Y, Z);
+                if (a2 >= av.size() || vh::hexF64(av[a2]) != vh::hexF64(calculateCellVol(X, Y, Z))) { ok = false; why = "activeVolume()[" + std::to_string(a2) + "] is not the volume of active cell " + std::to_string(gi); }
+                ++a2;
+            }
+            if (ok && a2 != av.size()) { ok = false; why = "activeVolume().size()"; }
+            break; }
+        case 'q':
+            if ((op.g >= n) != (a == "err")) { ok = false; why = "getCellVolume range check"; }
+            break;
+        case 'A': e.act.assign(n, 1); break;
+        case 'R':
+            if ((op.mask.size() != n) != (a == "err")) { ok = false; why = "resetACTNUM(mask) size check"; }
+            else if (a != "err") e.act = op.mask;
+            break;
+        case 'Z': case 'C':
+            if ((op.mask.size() != n) != (a == "err")) { ok = false; why = "copy constructor ACTNUM size check"; }
+            else if (a != "err") {
+                if (before != cellsHex(*old) + mapsStr(*old) + hexV(old->getZCORN()) + joinI(old->getACTNUM())) { ok = false; why = "copy constructor changed the source object"; }
+                e.act = op.mask;
+                if (op.kind == 'Z') {
+                    e.zcorn = EclipseGrid(e.d, e.coord, op.z, nullptr).getZCORN();
+                    if (hasInput) staleRisk = true;
+                }
+            }
+            break;
+        case 'S': case 'L': {
+            const EclipseGrid& src = op.kind == 'L' ? *old : *g;
+            std::unique_ptr<EclipseGrid> tmpLoaded;
+            if (op.kind == 'S') tmpLoaded = std::make_unique<EclipseGrid>(saved);
+            const EclipseGrid& h = op.kind == 'L' ? *g : *tmpLoaded;
+            bool geometry = false; std::string w;
+            st["seq.saveload"]++;
+            if (!checkReload(src, h, w, geometry)) {
+                if (staleRisk && geometry) {
+                    st["seq.stale_save_mismatch"]++;
+                    if (!staleReported) {
+                        staleReported = true;
+                        log.fail("C13.zcorn_copy_stale_save", "save() after EclipseGrid(src, zcorn, actnum) writes the source's input ZCORN: " + w + " " + hist);
+                    }
+                    // keep going with what the file gave (the loaded object is checked against itself)
+                } else { ok = false; key = "seq.saveload"; why = "save -> load does not give back the object: " + w; }
+            }
+            if (ok && op.kind == 'S') {
+                // the mutable input arrays are gone now: a second save must write the same geometry again
+                // (when the first one wrote stale arrays the second cannot agree with it: skip)
+                const std::string p2 = tmp + "/S" + std::to_string(fileNo++) + (op.formatted ? ".FEGRID" : ".EGRID");
+                g->save(p2, op.formatted, {}, unitSys(op.unit));
+                EclipseGrid h2(p2);
+                if (!checkReload(*g, h2, w, geometry)) { ok = false; key = "seq.saveload"; why = "second save of the same object -> load: " + w; }
+            }
+            hasInput = false; staleRisk = false;
+            if (op.kind == 'L') { e.coord = g->getCOORD(); e.zcorn = g->getZCORN(); cached = false; }
+            break; }
+        default: break;
+        }
+        if (a != "err" && (op.kind == 'R' || op.kind == 'A' || op.kind == 'Z' || op.kind == 'C')) {
+            if (cached) st[cachedCase(actBefore, e.act, zBefore != hexV(e.zcorn))]++;
+            cached = false;
+        }
+        if (ok && !checkObject(*g, e, why)) ok = false;
+        if (!ok) why = "after step " + std::to_string(t + 1) + " (" + opBrief(op) + "): " + why;
+        st["seq.steps"]++;
+    }
+    if (ok) log.ok(); else log.fail(key, why + " " + hist);
+    st["seq"]++;
+}
+
 } // namespace
 
 int main(int argc, char** argv) {
@@ -350,6 +843,10 @@ int main(int argc, char** argv) {
         return 0;
     }
 
+    // The sequences enter the OpenMP loop of activeVolume() thousands of times on tiny grids; with
+    // one thread per core on a busy machine the barriers dominate the run time (54 s instead of 3 s).
+    // Thread-count independence is examined separately (mode `vols`, OMP_NUM_THREADS = 1, 4, 16).
+    omp_set_num_threads(2);
     fs::create_directories(outdir);
     const std::string tmp = outdir + "/tmp";
     fs::create_directories(tmp);
@@ -490,6 +987,8 @@ int main(int argc, char** argv) {
                 emitEgrid(sink, rng, g, g.getCOORD(), g.getZCORN(), tmp, fileNo, hexF(maf), mu ? vh::hex(mus) : "-");
                 sink.count("egrid.mapaxes");
             }
+            // (9) operation sequences on one object (cache, resetACTNUM, copy constructors, save/load)
+            for (int t = 0; t < 3; ++t) emitSeq(sink, rng, thorough ? 5 : 4, tmp, fileNo);
             // (8) calculateCellVol on arbitrary (twisted) hexahedra and on their k-halves
             for (int t = 0; t < 10; ++t) {
                 A8 X, Y, Z;
@@ -522,6 +1021,7 @@ int main(int argc, char** argv) {
         const int rounds = thorough ? 80 : 20;
         const int pmax = thorough ? 9 : 6;
         const double VT = 1e-9;       // relative tolerance for volumes computed along different float paths
+        bool indexBroken = false;
         for (int round = 0; round < rounds; ++round) {
             // P1: index inverses and active maps on the real grid
             {
@@ -566,7 +1066,7 @@ int main(int argc, char** argv) {
                 if (ok) log.ok(); else log.fail("index", dims3(nx, ny, nz) + " actnum=" + joinI(act) + " " + why);
                 st["index"]++;
                 // broken index maps make every geometric query read out of bounds: report and stop here
-                if (log.failed > 0) break;
+                if (!ok) { indexBroken = true; break; }
             }
             // P2: input forms agree (DX/DY/DZ/TOPS, DXV/DYV/DZV/TOPS, DXV/DYV/DZV/DEPTHZ, explicit COORD/ZCORN)
             {
@@ -687,9 +1187,8 @@ int main(int argc, char** argv) {
                 }();
                 const int su = rng.range(0, 2);
                 UnitSystem us = unitSys(su);
-                std::vector<NNCdata> nnc;
-                const int nn = rng.coin() ? 0 : rng.range(1, 6);
-                for (int n = 0; n < nn; ++n) nnc.emplace_back(rng.below(g.getCartesianSize()), rng.below(g.getCartesianSize()), rng.unit());
+                const std::vector<NNCdata> nnc = genNnc(rng, g.getCartesianSize(), thorough);
+                st["egrid.nnc"] += (long) nnc.size(); st["egrid.nnc.repeated_pairs"] += nncRepeats(nnc); st["egrid.nnc.adjacent_repeats"] += nncAdjacentRepeats(nnc);
                 for (int fmt = 0; fmt < 2; ++fmt) {
                     const bool formatted = fmt == 1;
                     const std::string p1 = tmp + "/P" + std::to_string(fileNo++) + (formatted ? ".FEGRID" : ".EGRID");
@@ -721,8 +1220,21 @@ int main(int argc, char** argv) {
                             if (ok && !nnc.empty()) {
                                 const auto& n1 = ef.get<int>("NNC1"); const auto& n2 = ef.get<int>("NNC2"); const auto& nh = ef.get<int>("NNCHEAD");
                                 if (n1.size() != nnc.size() || n2.size() != nnc.size() || nh[0] != (int) nnc.size()) { ok = false; why = "NNC count"; }
-                                for (size_t n = 0; n < nnc.size() && ok; ++n) if (n1[n] != (int) nnc[n].cell1 + 1 || n2[n] != (int) nnc[n].cell2 + 1) { ok = false; why = "NNC cells"; }
+                                for (size_t n = 0; n < nnc.size() && ok; ++n) if (n1[n] != (int) nnc[n].cell1 + 1 || n2[n] != (int) nnc[n].cell2 + 1) { ok = false; why = "NNC cells (entry " + std::to_string(n) + ")"; }
                             }
+                        }
+                        // the NNC list as a reader sees it: same entries, same order, repeated pairs included
+                        if (ok) {
+                            EclIO::EGrid eg(p1);
+                            const auto back = eg.get_nnc_ijk();
+                            if (back.size() != nnc.size()) { ok = false; why = "wrote " + std::to_string(nnc.size()) + " NNCs, EGrid::get_nnc_ijk() returns " + std::to_string(back.size()); }
+                            for (size_t n = 0; n < nnc.size() && ok; ++n) {
+                                const auto a1 = g.getIJK(nnc[n].cell1), a2 = g.getIJK(nnc[n].cell2);
+                                const auto& [i1, j1, k1, i2, j2, k2, tr] = back[n];
+                                (void) tr;
+                                if (std::array<int, 3>{ i1, j1, k1 } != a1 || std::array<int, 3>{ i2, j2, k2 } != a2) { ok = false; why = "NNC " + std::to_string(n) + " read back with other cells"; }
+                            }
+                            if (ok && eg.activeCells() != (int) g.getNumActive()) { ok = false; why = "EGrid::activeCells()"; }
                         }
                         // geometry within single precision of the file
                         const auto& c1 = g.getCOORD(); const auto& c2 = h.getCOORD();
@@ -743,13 +1255,19 @@ int main(int argc, char** argv) {
                         }
                     } catch (const std::exception& e) { ok = false; why = "exception"; }
                     if (ok) log.ok(); else log.fail(formatted ? "egrid.formatted" : "egrid.unformatted",
-                        std::string(gridUnitName(su)) + " deckunit=" + unitKw(b.unit) + " " + why + " coord=" + hexV(g.getCOORD()) + " zcorn=" + hexV(g.getZCORN()) + " actnum=" + joinI(g.getACTNUM()));
+                        std::string(gridUnitName(su)) + " deckunit=" + unitKw(b.unit) + " " + why + " nnc=" + nncStr(nnc) + " coord=" + hexV(g.getCOORD()) + " zcorn=" + hexV(g.getZCORN()) + " actnum=" + joinI(g.getACTNUM()));
                     st[formatted ? "egrid.formatted" : "egrid.unformatted"]++;
                 }
             }
         }
+        // P7: operation sequences on one object
+        if (!indexBroken) {
+            bool staleReported = false;
+            const int nseq = thorough ? 240 : 60;
+            for (int t = 0; t < nseq; ++t) propSeq(log, st, rng, thorough ? 5 : 4, tmp, fileNo, staleReported);
+        }
         // P5: thread-count independence, observed: re-exec with OMP_NUM_THREADS = 1, 4, 16 and compare bits
-        if (st["index"] > 0 && log.failed > 0 && st.count("forms") == 0) {
+        if (indexBroken) {
             // index maps broken in the first round: nothing else was (or can safely be) evaluated
         } else {
             std::vector<std::string> outs;
